@@ -72,7 +72,7 @@ PROPS = {
     "C02": {
         "module": "Cuke.Props.C02",
         "namespace": "Cuke.C02",
-        "families": [("attempt.run", 800, 30000), ("sched.run", 1000, 40000), ("sched.lazy", 600, 30000)],
+        "families": [("attempt.run", 800, 30000), ("sched.run", 1000, 40000), ("sched.lazy", 600, 30000), ("match.find", 6000, 200000)],
         "segments": {"attempt.run": [0], "sched.run": [13]},
         "segment_names": ['c02'],
         "skip_prefixes": ["mon.c09", "mon.c10"],
@@ -80,7 +80,7 @@ PROPS = {
             "catch_unwind / unwinding: a panic is an outcome value of the model",
             "attempts of concurrent runs (sched.*) are checked against the grammar recogniser shapeOk (theorem runAttempt_shape), not against a per-attempt script",
             "Metadata timestamps are dropped",
-            "step matching is abstracted to pass / no-match / ambiguous (C17 covers Collection::find)",
+            "step matching is abstracted to pass / no-match / ambiguous in the attempt model; the clause 'no match => Skipped, several matches => Failed as ambiguous' also depends on Collection::find, so the match.find family (C17's model, theorems find_none / find_unique / find_ambiguous) is part of this check",
         ],
     },
     "C09": {
@@ -149,8 +149,9 @@ PROPS = {
     "C08": {
         "module": "Cuke.Props.C08",
         "namespace": "Cuke.C08",
-        "families": [("sched.run", 1000, 40000), ("sched.lazy", 600, 30000)],
-        "segments": {"sched.run": [4, 3, 1, 12]},
+        "families": [("sched.run", 1000, 40000), ("sched.lazy", 600, 30000), ("attempt.run", 800, 30000)],
+        "segments": {"sched.run": [4, 3, 1, 12], "attempt.run": [2]},
+        "skip_prefixes": ["mon.c09", "mon.c10"],
         "segment_names": ['FF', 'B', 'K', 'c08'],
         "modelled_not_verified": ["futures crate: FuturesUnordered, mpsc channels, join/select (the plumbing is checked by comparing sent and received event sequences)", "the async executor (hand-polled by the harness) and Instant / thread::sleep (clock readings are environment inputs of the model)", "HashMap iteration order at finish_all (model: any order inside the rule group and the feature group)"],
     },
